@@ -20,7 +20,7 @@ ASSUMPTIONS = [
     'std/itertools/smallvec callees (Vec::drain/swap, slice::rotate_left/swap, iter enumerate/skip/step_by/find/map/collect) are native models, validated per path against the compiled code',
     'nested-to-any-depth flattening is covered as repeated application of the one-level flatten step on arbitrary inner conflicts',
 ]
-BUDGET = {'quick': 200, 'thorough': 1500}
+BUDGET = {'quick': 900, 'thorough': 1500}
 F = 'lib/src/merge.rs'
 
 def jobs(tier):
